@@ -7,6 +7,13 @@ from opt_common import gen_caf_cases, gen_pairs, correspond_caf, pool, threshold
 from spellings import OPAQUE_KINDS, TRANSLUCENT_KINDS, spell
 
 MATCHERS = {}
+
+
+def regen_leaves():
+    """CmGen/Leaves.lean: the numeric functions and constants of the source as they read now (the `source_*`
+    theorems of CmProps/C01tie.lean identify them with the model)"""
+    from translate import leaves
+    leaves.generate()
 _CERT = {}
 RAT = {3.0: (3, 1), 4.5: (9, 2), 7.0: (7, 1)}
 
@@ -80,7 +87,9 @@ def eval_api(run, r):
 
 
 def check(run):
-    run.proof = proof_status("C01")
+    run.proof = proof_status("C01", regenerate=regen_leaves)
+    from translate import leaves as _leaves
+    run.extra["source_translation"] = _leaves.summary()
     q = run.quick()
     n_caf = 500 if q else 12000
     n_api = 700 if q else 20000
